@@ -21,6 +21,7 @@
 (*   order    - run_order(graph on a key set);  rorder - run_order(dict)   *)
 (*   help     - split_requirements, get_missing_requirements, first_of,    *)
 (*              stringify_requirements                                     *)
+(*   specs    - get_dependency_specs(c) as a formula (name / list / tuple) *)
 (*   stranger - the same questions about something never registered        *)
 (* An event is accepted iff the answer is one the reference operators of   *)
 (* DrGraph allow (ANY valid topological order, ANY valid order of parts,   *)
@@ -77,14 +78,14 @@ RawOK == \A i \in DOMAIN H.g : H.g[i].k \in 1..64 /\ \A j \in DOMAIN H.g[i].vs :
 Admitted == IF IsRaw THEN RawOK /\ NoDup(KeysOf(H.g)) ELSE H.ev = "prog" /\ ProgOK
 
 Evs == {"prog", "raw", "add", "deps", "name", "dgraph", "tree", "walk", "rps", "detc", "subg", "order", "rorder",
-        "help", "stranger"}
+        "help", "specs", "stranger"}
 HasNa == {"add", "deps", "dgraph", "tree", "walk", "rps", "detc", "subg", "order"}
 WellFormed ==
     /\ Ev.ev \in Evs
     /\ (l = 0) = (Ev.ev \in {"prog", "raw"})
     /\ IsRaw => Ev.ev \in {"raw", "rorder"}
     /\ Ev.ev \in HasNa => Ev.na \in 0..Len(A)
-    /\ Ev.ev \in {"add", "deps", "name", "dgraph", "tree", "walk", "rps", "help"} => Ev.c \in PIds
+    /\ Ev.ev \in {"add", "deps", "name", "dgraph", "tree", "walk", "rps", "help", "specs"} => Ev.c \in PIds
     /\ Ev.ev \in {"subg", "order"} => (Rng(Ev.keys) \subseteq PIds /\ NoDup(Ev.keys))
     /\ Ev.ev = "detc" => Rng(Ev.ids) \subseteq PIds
 
@@ -174,6 +175,13 @@ HelpOK ==
     /\ Ev.first = FirstOf(FlatSeq(d), pres)
     /\ Ev.s1 = Ev.s2
 
+(* get_dependency_specs is asked after all adds *)
+EP      == EffProg(P, A, Len(A))
+Points  == {x \in PIds : IsPoint(P, x)}
+SpecsOK ==
+    ~SpecsAskable(EP, A, Len(A), Ev.c)
+    \/ (Ev.exc = "" /\ Ev.islist /\ \A S \in SUBSET Points : EvalList(Ev.f, S) = NeedsMet(EP, Ev.c, S))
+
 StrangerOK == Ev.exc = "" /\ Ev.deps = <<>> /\ Ev.dents = <<>> /\ Ev.gexc # "" /\ ~Ev.isgraph /\ Ev.byn = "none"
 
 Accepts ==
@@ -191,6 +199,7 @@ Accepts ==
          [] Ev.ev = "order"    -> OrderOK
          [] Ev.ev = "rorder"   -> ROrderOK
          [] Ev.ev = "help"     -> HelpOK
+         [] Ev.ev = "specs"    -> SpecsOK
          [] OTHER              -> StrangerOK
 
 -----------------------------------------------------------------------------
@@ -312,6 +321,20 @@ DiagHelp ==
                        ELSE "not-the-first")
     ELSE "StringifyRequirements:list-and-pair-forms-differ"
 
+(* the parts of the declaration that bear on the answer: what the component looks at through requirements *)
+(* and groups                                                                                             *)
+SeenBy(c)  == {c} \cup {x \in TC(NeedEdges(EP), c) : ~IsPoint(P, x)}
+GroupsOf(x) == Rng(GrpSeq(EP[x].decl))
+SpecInGroup(c)   == \E x \in SeenBy(c) : \E g \in GroupsOf(x) : \E m \in Rng(g) : IsPoint(P, m)
+OddMember(c)     == \E x \in SeenBy(c) : \E g \in GroupsOf(x) : \E m \in Rng(g) :
+                        ~IsPoint(P, m) /\ Len(SpecForm(EP, m)) # 1
+DiagSpecs ==
+    LET feat == B(SpecInGroup(Ev.c), ":spec-directly-in-a-group")
+                \o B(OddMember(Ev.c), ":group-member-whose-own-requirements-are-not-exactly-one-item") IN
+    IF Ev.exc # "" THEN "DependencySpecs:exception:" \o Ev.exc \o feat
+    ELSE IF ~Ev.islist THEN "DependencySpecs:not-a-list"
+    ELSE "DependencySpecs:meaning-differs" \o feat
+
 DiagStranger ==
     IF Ev.exc # "" THEN "Stranger:exception:" \o Ev.exc
     ELSE IF Ev.deps # <<>> THEN "Stranger:get_dependencies-not-empty"
@@ -334,6 +357,7 @@ Diagnose ==
            [] Ev.ev = "order"    -> DiagOrder([k \in Rng(Ev.keys) |-> DE[k]])
            [] Ev.ev = "rorder"   -> DiagOrder(AsGraph(H.g))
            [] Ev.ev = "help"     -> DiagHelp
+           [] Ev.ev = "specs"    -> DiagSpecs
            [] OTHER              -> DiagStranger
 
 -----------------------------------------------------------------------------
